@@ -32,6 +32,7 @@ pub axiom fn axiom_strict_is_lossy_u64(b: Seq<u8>) ensures strict_num::<u64>(b) 
 /// `parse::<u64>()` is one function, whichever helper names it (verif_parse_u64 at the direct SET sites, verif_parse_str here)
 pub axiom fn axiom_str_u64_same(s: Seq<char>) ensures spec_str_num::<u64>(s) == spec_str_u64(s);
 pub axiom fn axiom_strict_is_lossy_isize(b: Seq<u8>) ensures strict_num::<isize>(b) == parse_lossy_spec::<isize>(b);
+pub axiom fn axiom_strict_is_lossy_usize(b: Seq<u8>) ensures strict_num::<usize>(b) == parse_lossy_spec::<usize>(b);
 
 /// `s.to_uppercase()` on the strictly decoded option word (RCALL site)
 pub uninterp spec fn upper_chars(s: Seq<char>) -> Seq<char>;
@@ -289,6 +290,108 @@ impl CommandParser {
             (frames@.len() < 3 || arg(frames@, 1) is None || !all_bulk(frames@, 2)) ==> r is Err,
             frames@.len() >= 3 && arg(frames@, 1) is Some && all_bulk(frames@, 2) ==>
                 (r matches Ok(SetCommand::SAdd { key, members }) && key@ == arg(frames@, 1)->Some_0 && members@ == args_from(frames@, 2)),
+//@@ body
+//@@ end
+
+// ---- more script-path parsers (added late): same reference shapes as the direct handlers of the same commands
+//@@ unit parse_getset fn src/storage/commands/executor.rs CommandParser::parse_getset
+    fn parse_getset(frames: &[RespFrame]) -> (r: Result<StringCommand>)
+        ensures
+            (frames@.len() != 3 || arg(frames@, 1) is None || arg(frames@, 2) is None) ==> r is Err,
+            frames@.len() == 3 && arg(frames@, 1) is Some && arg(frames@, 2) is Some ==>
+                (r matches Ok(StringCommand::GetSet { key, value }) && key@ == arg(frames@, 1)->Some_0 && value@ == arg(frames@, 2)->Some_0),
+//@@ body
+//@@ end
+//@@ unit parse_rename fn src/storage/commands/executor.rs CommandParser::parse_rename
+    fn parse_rename(frames: &[RespFrame]) -> (r: Result<KeyCommand>)
+        ensures
+            (frames@.len() != 3 || arg(frames@, 1) is None || arg(frames@, 2) is None) ==> r is Err,
+            frames@.len() == 3 && arg(frames@, 1) is Some && arg(frames@, 2) is Some ==>
+                (r matches Ok(KeyCommand::Rename { old_key, new_key }) && old_key@ == arg(frames@, 1)->Some_0 && new_key@ == arg(frames@, 2)->Some_0),
+//@@ body
+//@@ end
+//@@ unit parse_smembers fn src/storage/commands/executor.rs CommandParser::parse_smembers
+    fn parse_smembers(frames: &[RespFrame]) -> (r: Result<SetCommand>)
+        ensures
+            (frames@.len() != 2 || arg(frames@, 1) is None) ==> r is Err,
+            frames@.len() == 2 && arg(frames@, 1) is Some ==> (r matches Ok(SetCommand::SMembers { key }) && key@ == arg(frames@, 1)->Some_0),
+//@@ body
+//@@ end
+//@@ unit parse_hgetall fn src/storage/commands/executor.rs CommandParser::parse_hgetall
+    fn parse_hgetall(frames: &[RespFrame]) -> (r: Result<HashCommand>)
+        ensures
+            (frames@.len() != 2 || arg(frames@, 1) is None) ==> r is Err,
+            frames@.len() == 2 && arg(frames@, 1) is Some ==> (r matches Ok(HashCommand::HGetAll { key }) && key@ == arg(frames@, 1)->Some_0),
+//@@ body
+//@@ end
+//@@ unit parse_hkeys fn src/storage/commands/executor.rs CommandParser::parse_hkeys
+    fn parse_hkeys(frames: &[RespFrame]) -> (r: Result<HashCommand>)
+        ensures
+            (frames@.len() != 2 || arg(frames@, 1) is None) ==> r is Err,
+            frames@.len() == 2 && arg(frames@, 1) is Some ==> (r matches Ok(HashCommand::HKeys { key }) && key@ == arg(frames@, 1)->Some_0),
+//@@ body
+//@@ end
+//@@ unit parse_hvals fn src/storage/commands/executor.rs CommandParser::parse_hvals
+    fn parse_hvals(frames: &[RespFrame]) -> (r: Result<HashCommand>)
+        ensures
+            (frames@.len() != 2 || arg(frames@, 1) is None) ==> r is Err,
+            frames@.len() == 2 && arg(frames@, 1) is Some ==> (r matches Ok(HashCommand::HVals { key }) && key@ == arg(frames@, 1)->Some_0),
+//@@ body
+//@@ end
+//@@ unit parse_persist fn src/storage/commands/executor.rs CommandParser::parse_persist
+    fn parse_persist(frames: &[RespFrame]) -> (r: Result<KeyCommand>)
+        ensures
+            (frames@.len() != 2 || arg(frames@, 1) is None) ==> r is Err,
+            frames@.len() == 2 && arg(frames@, 1) is Some ==> (r matches Ok(KeyCommand::Persist { key }) && key@ == arg(frames@, 1)->Some_0),
+//@@ body
+//@@ end
+//@@ unit parse_type fn src/storage/commands/executor.rs CommandParser::parse_type
+    fn parse_type(frames: &[RespFrame]) -> (r: Result<KeyCommand>)
+        ensures
+            (frames@.len() != 2 || arg(frames@, 1) is None) ==> r is Err,
+            frames@.len() == 2 && arg(frames@, 1) is Some ==> (r matches Ok(KeyCommand::Type { key }) && key@ == arg(frames@, 1)->Some_0),
+//@@ body
+//@@ end
+//@@ unit parse_srem fn src/storage/commands/executor.rs CommandParser::parse_srem
+//@@   rewrite RT "let mut members = Vec::new();" "let mut members: Vec<Vec<u8>> = Vec::new();"
+//@@   loop 0
+//@@|     invariant 2 <= i <= frames@.len(), members@.len() == i - 2, forall|j: int| 2 <= j < i ==> (#[trigger] frames@[j] matches RespFrame::BulkString(Some(_))),
+//@@|         forall|j: int| 0 <= j < i - 2 ==> members@[j] == arg_vec(frames@, j + 2)->Some_0,
+//@@   afterloop 0
+//@@|     proof { assert(members@ =~= args_from(frames@, 2)); }
+    fn parse_srem(frames: &[RespFrame]) -> (r: Result<SetCommand>)
+        ensures
+            (frames@.len() < 3 || arg(frames@, 1) is None || !all_bulk(frames@, 2)) ==> r is Err,
+            frames@.len() >= 3 && arg(frames@, 1) is Some && all_bulk(frames@, 2) ==>
+                (r matches Ok(SetCommand::SRem { key, members }) && key@ == arg(frames@, 1)->Some_0 && members@ == args_from(frames@, 2)),
+//@@ body
+//@@ end
+//@@ unit parse_hdel fn src/storage/commands/executor.rs CommandParser::parse_hdel
+//@@   rewrite RT "let mut fields = Vec::new();" "let mut fields: Vec<Vec<u8>> = Vec::new();"
+//@@   loop 0
+//@@|     invariant 2 <= i <= frames@.len(), fields@.len() == i - 2, forall|j: int| 2 <= j < i ==> (#[trigger] frames@[j] matches RespFrame::BulkString(Some(_))),
+//@@|         forall|j: int| 0 <= j < i - 2 ==> fields@[j] == arg_vec(frames@, j + 2)->Some_0,
+//@@   afterloop 0
+//@@|     proof { assert(fields@ =~= args_from(frames@, 2)); }
+    fn parse_hdel(frames: &[RespFrame]) -> (r: Result<HashCommand>)
+        ensures
+            (frames@.len() < 3 || arg(frames@, 1) is None || !all_bulk(frames@, 2)) ==> r is Err,
+            frames@.len() >= 3 && arg(frames@, 1) is Some && all_bulk(frames@, 2) ==>
+                (r matches Ok(HashCommand::HDel { key, fields }) && key@ == arg(frames@, 1)->Some_0 && fields@ == args_from(frames@, 2)),
+//@@ body
+//@@ end
+//@@ unit parse_spop fn src/storage/commands/executor.rs CommandParser::parse_spop
+//@@   rewrite R1
+//@@   rewrite RCALL parse "*" verif_parse_str
+//@@   at "let count"
+//@@|     proof { if frames@.len() == 3 && arg(frames@, 2) is Some { axiom_strict_is_lossy_usize(arg(frames@, 2)->Some_0); } }
+    fn parse_spop(frames: &[RespFrame]) -> (r: Result<SetCommand>)
+        ensures
+            // C12: refused for exactly the shapes the direct command refuses; the count is the number the argument spells, no count = None
+            (frames@.len() < 2 || frames@.len() > 3 || arg(frames@, 1) is None || (frames@.len() == 3 && num_arg::<usize>(frames@, 2) is None)) ==> r is Err,
+            frames@.len() == 2 && arg(frames@, 1) is Some ==> (r matches Ok(SetCommand::SPop { key, count }) && key@ == arg(frames@, 1)->Some_0 && count is None),
+            frames@.len() == 3 && arg(frames@, 1) is Some && num_arg::<usize>(frames@, 2) is Some ==>
+                (r matches Ok(SetCommand::SPop { key, count }) && key@ == arg(frames@, 1)->Some_0 && count == Some(num_arg::<usize>(frames@, 2)->Some_0)),
 //@@ body
 //@@ end
 
